@@ -220,7 +220,10 @@ def marshalDocument (doc : Document) (fields : GoMap (List GoString)) (selfHref 
         | .err => .err | .panic => .panic)
     | .ident id typ => .ok (some (identifierJson id typ), doc.data)
     | .idents _ l => .ok (some (.arr (l.map (fun p => identifierJson p.1 p.2))), doc.data)
-    | .other => .err
+    | .other =>
+      -- `err` is set, but a document with errors overwrites it with the (nil) result of
+      -- marshaling the errors
+      if doc.errors.isEmpty then .err else .ok (none, doc.data)
     | .none => .ok (if doc.errors.isEmpty then some .null else none, doc.data)
   match dataRes with
   | .ok (data, data') =>
